@@ -33,6 +33,8 @@ CORPUS = [
     "bot a\n" + "".join(f"bot say something {i}\n" for i in range(40)), "bot a\nwhile True\n  $x = 1", "bot a\ndo something undefined\nbot b", "bot a\nif $foo.bar\n  bot b",
     # longer than the prompt budget of the following call (the history has to be cut to fit)
     "w" * 20000, "ask " + "z" * 20000, "  ask\nbot " + "v" * 20000,
+    # text that cannot be encoded as UTF-8: a lone surrogate (what a truncated emoji escape decodes to), alone and inside a message
+    "\ud83d", "hello \ud83d there", "  ask\nbot inform\n  \"hi \udc00\"", '"\ud83d"',
     "bot $event", "bot $generation_options", "bot $relevant_chunks", "bot $last_user_message", "  ask\nbot $event",
 ]
 
